@@ -189,10 +189,19 @@ class Evaluator(object):
         import canon
         return any(n.get('k') == 'Field' and (norm_path(canon.strip_ty(n['e'].get('ty') or '')), n['name']) in obs for n in H.walk(node))
 
+    def _obs_term(self, t):
+        names = getattr(self, 'obs_names', None)
+        while names and t is not None and t[0] == 'field':
+            if any(seg in names for seg in t[2].split('.')):
+                return True
+            t = t[1]
+        return False
+
     def emit(self, kind, term, node, guards, fn, chain, **kw):
-        if kind in ('assign', 'assignop') and isinstance(node, dict) and self._obs_place(node.get('l')):
+        if kind in ('assign', 'assignop') and isinstance(node, dict) and (self._obs_place(node.get('l')) or self._obs_term(kw.get('lhs'))):
             return Event(idx=-1, kind='obs', term=term, node=node, guards=tuple(guards), fn=fn, chain=tuple(chain), sp=(node or {}).get('sp'), **kw)
-        if kind == 'call' and isinstance(node, dict) and kw.get('callee', '').split('::')[-1] in PURE_NUM and self._reads_obs(node):
+        if kind == 'call' and isinstance(node, dict) and kw.get('callee', '').split('::')[-1] in PURE_NUM and \
+                (self._reads_obs(node) or any(self._obs_term(a) for a in (kw.get('args') or ()))):
             return Event(idx=-1, kind='obs', term=term, node=node, guards=tuple(guards), fn=fn, chain=tuple(chain), sp=(node or {}).get('sp'), **kw)
         ev = Event(idx=len(self.events), kind=kind, term=term, node=node, guards=tuple(guards), fn=fn,
                    chain=tuple(chain), sp=(node or {}).get('sp'), **kw)
@@ -360,7 +369,7 @@ class Evaluator(object):
     def freeze_readers(self, env, place, node=None, guards=(), fn=None, chain=()):
         """A place was overwritten: locals bound to a term that still *reads* it (outside any call
         result) denote the old value; make them opaque so the new value is not substituted."""
-        if place is None or place[0] not in ('field', 'var'):
+        if place is None or place[0] not in ('field', 'var') or self._obs_term(place):
             return
         for lid, t in list(env.items()):
             if t is not None and reads_place(t, place):
@@ -1022,6 +1031,13 @@ class Evaluator(object):
         ce = canon_error_call(npath, args, getattr(self, 'error_has_source', lambda v: False))
         if ce is not None:
             t = ce
+        if t[0] == 'call' and t[1] == 'std::result::Result::map_err' and len(t[2]) == 2 and t[2][0] is not None and t[2][0][0] == 'call' and t[2][1] is not None and t[2][1][0] == 'closure':
+            inner, clo = t[2]
+            if inner[1] == 'Err' and len(inner[2]) == 1 and len(clo[2]) == 1:
+                # map_err(Err(e), |x| f(x)) is Err(f(e))
+                t = ('call', 'Err', (replace(clo[3], ('var', clo[2][0][0], clo[2][0][1]), inner[2][0]),), ())
+            elif inner[1] == 'Ok' and len(inner[2]) == 1:
+                t = inner
         ev = self.emit('call', t, node, guards, fn, chain, callee=npath, args=args, extra={'decl': ndecl, 'gargs': gargs})
         # bounded inlining of crate-local callees
         target = self.fns.get(npath)
